@@ -152,7 +152,7 @@ WMF = [
     ins(A.sig(), '''
     requires ids_distinct(output_folder, bt_entries(crate_parsed_data))
     ensures
-        /*C17: every crate's generated module goes through check_write_file - whatever the folder held before*/
+        /*C17 C14: every crate's generated module goes through check_write_file - whatever the folder held before; one module per crate, holding what was generated from that crate's data*/
         res is Ok ==> modules_written(old(lang).gen_key(), &import_candidates, output_folder, bt_entries(crate_parsed_data),
                                       bt_entries(crate_parsed_data).len() as int, final(log).files),
 ''', cid='write_multiple_files.contract'),
